@@ -195,6 +195,13 @@ fn lib_truth(q: &Query, doc: &J, obs: &mut Obs) -> Result<bool, Failure> {
 }
 
 fn check_cell(a: &Option<J>, b: &Option<J>, fa: Form, fb: Form, alt: u32, obs: &mut Obs) -> Res {
+    check_cell_mode(a, b, fa, fb, alt, false, obs)
+}
+
+/// `laws_only`: the pair lies where this check does not say which of `<`, `==`, `>` holds (an integer beyond
+/// 2^53 against the double next to it, integers above i64::MAX that share a double): only the laws the
+/// property states for *any* two numbers are asserted on the library's six answers
+fn check_cell_mode(a: &Option<J>, b: &Option<J>, fa: Form, fb: Form, alt: u32, laws_only: bool, obs: &mut Obs) -> Res {
     let (la, lb) = match (operand(fa, "x", a, alt), operand(fb, "y", b, alt / 3)) {
         (Some(x), Some(y)) => (x, y),
         _ => return Ok(()),
@@ -213,7 +220,7 @@ fn check_cell(a: &Option<J>, b: &Option<J>, fa: Form, fb: Form, alt: u32, obs: &
         truth[i] = got;
         // the same cell on a Queryable type that keeps integers and floats apart (integers answer
         // only to as_i64): "numbers by mathematical value whether stored as integer or float"
-        if matches!(fa, Form::RelDot | Form::Literal | Form::AbsRoot) && matches!(fb, Form::RelDot | Form::Literal | Form::AbsRoot) && !has_escape_cell(&la, &lb) {
+        if !laws_only && matches!(fa, Form::RelDot | Form::Literal | Form::AbsRoot) && matches!(fb, Form::RelDot | Form::Literal | Form::AbsRoot) && !has_escape_cell(&la, &lb) {
             use jsonpath_rust::JsonPath;
             let v1 = crate::vq::V1::from_j(&doc);
             obs.eval(1);
@@ -233,7 +240,7 @@ fn check_cell(a: &Option<J>, b: &Option<J>, fa: Form, fb: Form, alt: u32, obs: &
                 ));
             }
         }
-        if got != exp {
+        if got != exp && !laws_only {
             // attribution: evaluate the whole query with the reference evaluator under open quirks
             let att = attribute(ID, &got, |k| !oracle::eval(&q, &doc, k).is_empty());
             match att {
@@ -517,6 +524,44 @@ fn random_overflow_literals(src: &mut Src, obs: &mut Obs) -> Res {
     }
 }
 
+/// numbers whose comparison this check does not predict (an integer beyond 2^53 and the double next to it,
+/// two integers above i64::MAX with the same double): whatever the answer, the six operators must stay
+/// consistent with each other - `!=` is `not ==`, `<=` is `< or ==`, exactly one of `<`, `==`, `>` holds
+fn random_number_laws(src: &mut Src, obs: &mut Obs) -> Res {
+    let big: i64 = match src.below(4) {
+        0 => (1 << 53) + 1 + 2 * src.range(0, 500),
+        1 => 1_186_275_104_485_195_777 + src.range(-50, 50),
+        2 => i64::MAX - src.range(0, 1000),
+        _ => src.range(1 << 53, i64::MAX - 1),
+    };
+    let big = if src.chance(1, 4) { -big } else { big };
+    let near = |src: &mut Src, f: f64| -> f64 {
+        match src.below(3) {
+            0 => f,
+            1 => next_up(f),
+            _ => -next_up(-f),
+        }
+    };
+    let (a, b) = match src.below(4) {
+        0 | 1 => (J::Int(big), J::Float(near(src, big as f64))),
+        2 => {
+            let u = *src.pick(&[1u64 << 63, (1u64 << 63) + 1, (1u64 << 63) + 1025, u64::MAX, u64::MAX - 1, u64::MAX - 1024]);
+            (J::UInt(u), if src.bool() { J::UInt(*src.pick(&[1u64 << 63, (1u64 << 63) + 1, u64::MAX, u64::MAX - 1])) } else { J::Float(near(src, u as f64)) })
+        }
+        _ => (J::Int(i64::MAX - src.range(0, 600)), J::UInt((1u64 << 63) + src.range(0, 600) as u64)),
+    };
+    obs.label("laws-only(integer-beyond-2^53-against-a-double-or-shared-double)");
+    let forms = [Form::RelDot, Form::AbsRoot, Form::RelViaArray, Form::ValueFn];
+    let fa = *src.pick(&forms);
+    let fb = if matches!(b, J::Float(_)) && src.chance(1, 3) { Form::Literal } else { *src.pick(&forms) };
+    let alt = src.below(9) as u32;
+    if src.bool() {
+        check_cell_mode(&Some(a), &Some(b), fa, fb, alt, true, obs)
+    } else {
+        check_cell_mode(&Some(b), &Some(a), fb, fa, alt, true, obs)
+    }
+}
+
 /// two integers beyond 2^53 that are neighbours (equal as doubles), through every operator
 fn random_big_integers(src: &mut Src, obs: &mut Obs) -> Res {
     let mag: i64 = match src.below(4) {
@@ -692,6 +737,7 @@ pub fn prop() -> Prop {
             Sub { name: "random-deep", kind: Kind::Random { f: random_deep, quick: 100_000, thorough: 2_000_000, len: 300 } },
             Sub { name: "random-numbers", kind: Kind::Random { f: random_numbers, quick: 100_000, thorough: 2_000_000, len: 32 } },
             Sub { name: "random-overflow-literals", kind: Kind::Random { f: random_overflow_literals, quick: 20_000, thorough: 400_000, len: 32 } },
+            Sub { name: "random-number-laws", kind: Kind::Random { f: random_number_laws, quick: 40_000, thorough: 800_000, len: 32 } },
             Sub { name: "random-big-integers", kind: Kind::Random { f: random_big_integers, quick: 40_000, thorough: 800_000, len: 32 } },
             Sub { name: "random-escaped-names", kind: Kind::Random { f: random_escaped_names, quick: 40_000, thorough: 800_000, len: 100 } },
             Sub { name: "random-escaped-literals", kind: Kind::Random { f: random_escaped_literals, quick: 40_000, thorough: 800_000, len: 64 } },
